@@ -467,6 +467,18 @@ class HashRule(ABC):
         if ":" in symbol:
 
             def memento_fn_resolver():
+                # The symbol names a function, not one version of it: look the function up
+                # without asking for its version. Building a reference asks for the version,
+                # which never ends when the declared function refers back to this one.
+                parts = FunctionReference.parse_qualified_name(symbol)
+                if parts["version"] is None:
+                    try:
+                        # noinspection PyProtectedMember
+                        return FunctionReference._find_function(
+                            parts["module"], parts["function"], None
+                        )
+                    except (ModuleNotFoundError, ValueError, AttributeError):
+                        pass
                 return FunctionReference.from_qualified_name(symbol).memento_fn
 
             memento_fn = memento_fn_resolver()
